@@ -47,7 +47,7 @@ func init() {
 func runScenario(t *testing.T, sc *Scenario, cfg simrt.Config) (res *RunResult) {
 	res = &RunResult{Sc: sc}
 	sc.normalise()
-	func() {
+	body := func(t *testing.T) {
 		defer func() {
 			if r := recover(); r != nil {
 				res.BubblePanic = fmt.Sprint(r)
@@ -126,7 +126,13 @@ func runScenario(t *testing.T, sc *Scenario, cfg simrt.Config) (res *RunResult) 
 				sim.Reap()
 			}
 		})
-	}()
+	}
+	if simrt.RaceEnabled {
+		// a race report makes the testing package fail the bubble's test with FailNow: confine that to a subtest
+		t.Run("run", body)
+	} else {
+		body(t)
+	}
 	return res
 }
 
@@ -227,8 +233,7 @@ func (w *World) executor(op *Op) (failsafe.Executor[R], context.Context) {
 // userFn is the wrapped function: it follows the execution's script.
 func (w *World) userFn(op *Op, exec failsafe.Execution[R]) (R, error) {
 	id := op.ExecID
-	n := w.fnCalls[id]
-	w.fnCalls[id]++
+	n := w.nextFnCall(id)
 	sc := &w.sc.Scripts[op.Script]
 	idx := n
 	if sc.ByAttempt && exec != nil {
@@ -530,4 +535,18 @@ func (w *World) postRun(res *RunResult) {
 		}
 		res.BreakerEnd[i] = [2]int{st, n}
 	}
+}
+
+//go:norace
+func (w *World) nextFnCall(id int) int {
+	n := w.fnCalls[id]
+	w.fnCalls[id]++
+	return n
+}
+
+//go:norace
+func (w *World) nextDelayCall(pol int) int {
+	n := w.delayCalls[pol]
+	w.delayCalls[pol]++
+	return n
 }
